@@ -138,6 +138,8 @@ impl Mul<Scalar> for Challenge {
 #[derive(Debug)]
 pub struct ChallengeBuilder {
     hasher: Sha3_256,
+    #[cfg(feature = "verif-hooks")]
+    segments: Vec<Vec<u8>>,
 }
 
 impl Default for ChallengeBuilder {
@@ -151,6 +153,8 @@ impl ChallengeBuilder {
     pub fn new() -> Self {
         Self {
             hasher: Sha3_256::new(),
+            #[cfg(feature = "verif-hooks")]
+            segments: Vec::new(),
         }
     }
 
@@ -167,6 +171,8 @@ impl ChallengeBuilder {
 
     /// Incorporate arbitrary bytes into the challenge.
     pub fn consume_bytes(&mut self, bytes: impl AsRef<[u8]>) {
+        #[cfg(feature = "verif-hooks")]
+        self.segments.push(bytes.as_ref().to_vec());
         self.hasher.update(bytes);
     }
 
@@ -186,6 +192,47 @@ impl ChallengeBuilder {
             u64::from_le_bytes(<[u8; 8]>::try_from(&digested[16..24]).unwrap()),
             u64::from_le_bytes(<[u8; 8]>::try_from(&digested[24..32]).unwrap()),
         ]);
+        #[cfg(feature = "verif-hooks")]
+        verif_hooks::push(self.segments, scalar.to_bytes());
         Challenge(scalar)
+    }
+}
+
+/// Challenge recorder used by external verification tooling. Compiled only with the
+/// `verif-hooks` feature; it observes the challenge derivation and never alters it.
+#[cfg(feature = "verif-hooks")]
+pub mod verif_hooks {
+    use std::cell::RefCell;
+
+    /// One finished challenge: the byte segments consumed, in order, and the resulting scalar.
+    #[derive(Debug, Clone)]
+    pub struct ChallengeRecord {
+        /// Byte strings passed to `consume_bytes`, in order.
+        pub segments: Vec<Vec<u8>>,
+        /// Little-endian bytes of the challenge scalar.
+        pub challenge: [u8; 32],
+    }
+
+    thread_local! {
+        static LOG: RefCell<Vec<ChallengeRecord>> = RefCell::new(Vec::new());
+    }
+
+    pub(super) fn push(segments: Vec<Vec<u8>>, challenge: [u8; 32]) {
+        LOG.with(|log| {
+            log.borrow_mut().push(ChallengeRecord {
+                segments,
+                challenge,
+            })
+        });
+    }
+
+    /// Remove and return all records of the current thread.
+    pub fn drain() -> Vec<ChallengeRecord> {
+        LOG.with(|log| log.borrow_mut().drain(..).collect())
+    }
+
+    /// Forget all records of the current thread.
+    pub fn clear() {
+        LOG.with(|log| log.borrow_mut().clear());
     }
 }
